@@ -24,6 +24,21 @@ def main():
         tier = "quick"
     from vf.common import Run, env_seed
 
+    if a.prop.startswith("spec:"):
+        # developer entry: ./check spec:vf.contracts.layers:CumulativeFinalizeLayer  (one tier-P contract, verbose)
+        _, modname, clsname = a.prop.split(":")
+        from vf.pyvc.spec import verify_spec
+
+        spec = getattr(importlib.import_module(modname), clsname)()
+        rep = verify_spec(spec)
+        for o in rep.obligations:
+            print(f"  {o['status']:<12} {o['name']}  x{o['instances']} {o['seconds']:.2f}s {o['detail'][:300]}")
+        for r in rep.refutations:
+            print("  REFUTED", json.dumps({k: v for k, v in r.items() if k != "model"}, default=repr)[:600])
+        print("  crosscheck:", rep.crosscheck["inputs"], "inputs;", rep.crosscheck["contract_fail"][:2])
+        for e in rep.errors:
+            print("  ERROR", e)
+        sys.exit(0)
     if a.prop == "selftest":
         from vf import selftest
 
